@@ -40,10 +40,8 @@ type verifMuxSocket struct {
 	blockTag    byte
 	deadlineSet bool
 	armed       chan struct{}
-	mu       sync.Mutex
+	mu          sync.Mutex
 }
-
-
 
 func (s *verifMuxSocket) ReadFrom(p []byte) (int, net.Addr, error) {
 	d, ok := <-s.in
